@@ -53,7 +53,7 @@ def cases(tier, seed, ctx=None):
         for _ in range(rng.range(0, 4)):
             table.append([rng.choice(USERS), rng.choice(PASSES)])
         realm = rng.choice([b"R", b"My Realm", b""])
-        kind = rng.below(15)
+        kind = rng.below(16)
         u, p = (rng.choice(table) if table and rng.chance(4, 5) else [rng.choice(USERS), rng.choice(PASSES)])
         tok = base64.b64encode(u + b":" + p)
         hv = b"Basic " + tok
@@ -81,6 +81,13 @@ def cases(tier, seed, ctx=None):
         elif kind == 11: hv = rng.choice([b"Bearer ", b"Digest ", b"Basi ", b"Basicx "]) + tok; tag = "other-scheme"
         elif kind == 12: hv = rng.bytes(rng.range(0, 14), b"Basic QWxhZGRpbjpvcGVu=: \t"); tag = "random"
         elif kind == 13: hv = b"Basic " + tok + b" x"; tag = "trailing-part"
+        elif kind == 15:
+            # credentials containing %HH sequences and payloads with white space at their ends: nothing is decoded or trimmed
+            u, p = rng.choice([(b"admin", b"s3cret"), (b"admin", b"100%25off"), (b"a%64min", b"s3cr%65t"), (b"admin ", b" s3cret")])
+            table.append([u, p])
+            pay = rng.choice([u + b":" + p, b"admin:s3cr%65t", b"%61dmin:s3cret", b"admin:s3cret\n", b" admin:s3cret", b"admin:s3cret ", b"admin:100%off",
+                              b"admin:100%2525off", b"a%64min:s3cr%65t", b"admin :  s3cret", b"\tadmin:s3cret"])
+            hv = b"Basic " + base64.b64encode(pay); tag = "percent-and-blanks-in-the-payload"
         elif kind == 14:
             u, p = rng.choice(USERS[:4]), rng.choice(PASSES[-4:])
             table.append([u, p])
